@@ -326,6 +326,64 @@ Sanitise ==
     \/ Uninit("sanitise", <<>>)
     \/ /\ inited /\ mem' = SanitiseFrom(d, mem, 1) /\ touched' = {} /\ UNCHANGED <<d, inited>>
        /\ One("sanitise", <<>>, <<OK>> \o Image(mem') \o <<-7>> \o TouchVec(d, {}))
+(* ------------------------------------------------------------------ behaviour beyond C01-C05 (bin/extras, X02) *)
+Default(h) ==
+    \/ Uninit("default", <<h>>)
+    \/ inited /\ UNCHANGED vars
+       /\ One("default", <<h>>, IF ValidH(d, h) THEN <<OK, d.regs[h + 1].ty>> \o d.regs[h + 1].def ELSE <<NOENTRY>>)
+(* equality of the values of two registers: same type and same number (-0 = +0 for floats) *)
+ValEq(ty, a, b) == IF IsFloat(ty) THEN FloatLE(a, b) /\ FloatLE(b, a) ELSE a = b
+Compare(h1, h2) ==
+    \/ Uninit("compare", <<h1, h2>>)
+    \/ inited /\ UNCHANGED vars
+       /\ LET g1 == GetResult(d, mem, h1)
+              g2 == GetResult(d, mem, h2)
+          IN One("compare", <<h1, h2>>,
+                 IF g1[1] # OK THEN <<g1[1]>> ELSE IF g2[1] # OK THEN <<g2[1]>>
+                 ELSE IF g1[2] = g2[2] /\ ValEq(g1[2], Drop(g1, 2), Drop(g2, 2)) THEN <<OK>> ELSE <<REFUSED>>)
+(* unchecked copy of the leading words of area src over area dst (0-based area indices; both must not be
+   callback-backed at the same time) *)
+MCopy(dst, src) ==
+    /\ inited /\ dst \in 0..NA(d) - 1 /\ src \in 0..NA(d) - 1
+    /\ LET da == d.areas[dst + 1]
+           sa == d.areas[src + 1]
+           n == MinOf(da.size, sa.size)
+       IN IF da.kind = 1 /\ sa.kind = 1
+          THEN UNCHANGED vars /\ One("mcopy", <<dst, src>>, <<REFUSED>> \o Image(mem))
+          ELSE /\ mem' = [mem EXCEPT ![dst + 1] = SubSeq(mem[src + 1], 1, n) \o Drop(mem[dst + 1], n)]
+               /\ UNCHANGED <<d, inited, touched>>
+               /\ One("mcopy", <<dst, src>>, <<OK>> \o Image(mem'))
+(* user initialisation: the callback is called for the registers in order until it reports a negative value *)
+UserInit(script) ==
+    \/ Uninit("userinit", <<Len(script)>> \o script)
+    \/ inited /\ UNCHANGED vars
+       /\ LET neg == {k \in 1..NR(d) : ScriptAt(script, k) < 0}
+              stop == IF neg = {} THEN NR(d) ELSE MinOfSet(neg)
+          IN One("userinit", <<Len(script)>> \o script,
+                 (IF neg = {} THEN <<OK, 0>> ELSE <<REFUSED, d.regs[stop].addr>>) \o [k \in 1..stop |-> k - 1])
+(* hexadecimal text written as raw 16-bit atoms from address start on, four digits per atom (a shorter last
+   group is the low digits); not atomic: atoms in front of the first problem stay written.  The atoms are
+   written in host representation, so a big-endian table sees them octet-swapped. *)
+HexDigitVal(c) == IF c \in 48..57 THEN c - 48 ELSE IF c \in 97..102 THEN c - 87 ELSE IF c \in 65..70 THEN c - 55 ELSE -1
+RECURSIVE HexAtom(_, _)
+HexAtom(cs, acc) == IF cs = <<>> THEN acc ELSE HexAtom(Tail(cs), acc * 16 + HexDigitVal(Head(cs)))
+Swap16(w) == (w % 256) * 256 + (w \div 256)
+RECURSIVE HexStore(_, _, _)
+HexStore(m, addr, cs) ==      \* <<code, addr, mem>>
+    IF cs = <<>> THEN <<OK, 0, m>>
+    ELSE LET grp == Take(cs, MinOf(4, Len(cs)))
+             ar == AreaOf(d, addr)
+         IN IF ar = 0 THEN <<NOENTRY, addr, m>>
+            ELSE IF d.areas[ar].hasw = 0 THEN <<READONLY, addr, m>>
+            ELSE IF \E k \in 1..Len(grp) : HexDigitVal(grp[k]) < 0 THEN <<INVALID, addr, m>>
+            ELSE LET v == HexAtom(grp, 0)
+                 IN HexStore(SetWord(d, m, addr, IF d.be = 1 THEN Swap16(v) ELSE v), addr + 1, Drop(cs, Len(grp)))
+HexStr(start, cs) ==
+    /\ inited
+    /\ LET r == HexStore(mem, start, cs)
+       IN /\ mem' = r[3] /\ UNCHANGED <<d, inited, touched>>
+          /\ One("hexstr", <<start, Len(cs)>> \o cs, <<r[1], r[2]>> \o Image(r[3]))
+
 (* environment: out-of-band alteration of one mapped word *)
 Corrupt(addr, w) == /\ inited /\ Mapped(d, addr) /\ mem' = SetWord(d, mem, addr, w) /\ UNCHANGED <<d, inited, touched>>
                     /\ One("corrupt", <<addr, w>>, <<OK>> \o Image(mem'))
